@@ -777,9 +777,18 @@ impl Chans {
 }
 
 pub fn register_pool(app: &mut App, cfg: &AppCfg, role: Role) {
-    app.replicate::<A>()
-        .replicate::<B>()
-        .replicate::<S>()
+    // Protocol variants of a client build that differs from the server's (C07 / C14): 1 one more trailing
+    // registration, 2 another event marked independent (same number of marks at the same position),
+    // 3 another priority for one rule, 4 two rules in another order. Channel ids of the pool stay the same.
+    let pv = cfg.proto_variant;
+    if pv == 4 {
+        app.replicate::<B>().replicate::<A>();
+    } else if pv == 3 {
+        app.replicate::<A>().replicate_with_priority(2, RuleFns::<B>::default());
+    } else {
+        app.replicate::<A>().replicate::<B>();
+    }
+    app.replicate::<S>()
         .replicate::<Imm>()
         .replicate_once::<O>()
         .replicate_periodic::<P>(cfg.period.max(1))
@@ -804,16 +813,19 @@ pub fn register_pool(app: &mut App, cfg: &AppCfg, role: Role) {
     app.add_mapped_server_event::<SeOrd>(Channel::Ordered)
         .add_server_event::<SeUnord>(Channel::Unordered)
         .add_server_event::<SeUnrel>(Channel::Unreliable)
-        .add_server_event::<SeInd>(Channel::Ordered)
-        .make_event_independent::<SeInd>()
-        .add_server_trigger::<StTrig>(Channel::Ordered)
+        .add_server_event::<SeInd>(Channel::Ordered);
+    if pv == 2 {
+        app.make_event_independent::<SeUnord>();
+    } else {
+        app.make_event_independent::<SeInd>();
+    }
+    app.add_server_trigger::<StTrig>(Channel::Ordered)
         .add_client_event::<CeOrd>(Channel::Ordered)
         .add_mapped_client_event::<CeMap>(Channel::Ordered)
         .add_client_trigger::<CtTrig>(Channel::Ordered)
         .add_client_event::<CeUnord>(Channel::Unordered)
         .add_client_event::<CeUnrel>(Channel::Unreliable);
-    if cfg.proto_variant == 1 {
-        // A build that differs by one trailing registration (channel ids of the pool stay the same).
+    if pv == 1 {
         app.add_client_event::<ExtraEv>(Channel::Ordered);
     }
 }
